@@ -44,6 +44,10 @@ Theorem c06_loss_overlap_refuted : ~ effect_while_active_statement loss_write.
 Proof. exact loss_overlap_refuted. Qed.
 Print Assumptions c06_loss_overlap_refuted.
 
+Theorem c06_capacity_overlap_refuted : ~ effect_while_active_statement capv_write.
+Proof. exact capacity_overlap_refuted. Qed.
+Print Assumptions c06_capacity_overlap_refuted.
+
 (** A handle cancelled before activation: none of the fault's closures ever runs. *)
 Theorem c06_cancel_before_activation : forall sched (k : nat) w tc,
   wf sched -> nth_error sched k = Some w -> w_c w = Some tc -> tc < w_s w ->
